@@ -359,6 +359,12 @@ def plan_simple(prop, target, pattern, execs_quick, execs_thorough, rule, gate_c
             for k in range(chunks):
                 jobs.append(dict(target=target, variant="xrt-prod", timeout=3600,
                                  args=["--cfg", c, "--mode", "sc", "--seed", str(seed * 100 + k), "--execs", str(execs // chunks)]))
+            # the machine these containers run on is not sequentially consistent: a slice on the x86-TSO engine (store buffers) and one
+            # with stale reads (window 64); failed operations of worker threads are not judged there (see C03), everything else is
+            jobs.append(dict(target=target, variant="xrt-prod", timeout=3600,
+                             args=["--cfg", c, "--mode", "tso", "--seed", str(seed * 100 + 50), "--execs", str(max(200, execs // 8))]))
+            jobs.append(dict(target=target, variant="xrt-prod", timeout=3600,
+                             args=["--cfg", c, "--mode", "weak", "--seed", str(seed * 100 + 51), "--execs", str(max(200, execs // 8)), "--window", "64"]))
         return jobs
 
     def gates(tier, agg, counters, per_config, distinct):
@@ -376,21 +382,21 @@ def plan_simple(prop, target, pattern, execs_quick, execs_thorough, rule, gate_c
 
 
 PLANS["C12"] = plan_simple(
-    "C12", "deque", r".", 24000, 120000,
+    "C12", "deque", r".", 24000, 400000,
     "each evaluation = owner-only prefix of 0..64*capacity push/take pairs (moves top/bottom to an arbitrary offset), then one owner (3-11 push/pop) "
     "and 1-3 thieves (1-5 steals each) under one seeded schedule, then a drain; judged by a WGL search against a sequential deque in which a steal "
     "may fail while overlapping another operation; every returned pointer must be a pushed item; capacities 2/4/8, growing and fixed arrays",
     {"executions_with_growth": 200, "successful_concurrent_steals": 1000, "failed_steals_under_overlap": 10})
 
 PLANS["C14"] = plan_simple(
-    "C14", "seqlock", r".", 16000, 120000,
+    "C14", "seqlock", r".", 16000, 300000,
     "each evaluation = 1-2 writers (store / update / load) and 1-3 readers (load), <= 6 operations each, on seqlock<Blob<N,Align>, slots<S>> for sizes "
     "9..40 bytes (incl. sizes that are not multiples of the word size and alignments 1/2/4), slots 1/2/3/4/8, under one seeded schedule; every loaded "
     "value and every value handed to an update functor is decoded byte by byte against the pattern of the stored values; the history is judged by a WGL "
     "search against an atomic register (update = atomic read-modify-write)", {"loads_overlapping_writes": 1000})
 
 PLANS["C13"] = plan_simple(
-    "C13", "leftright", r".", 64000, 480000,
+    "C13", "leftright", r".", 64000, 1000000,
     "each evaluation = 1-2 writers (update = set both fields of the instance to a unique id, in two steps with a preemption point in between) and 1-3 "
     "readers, <= 5 operations each, under one seeded schedule (every seq_cst operation, mutex operation and yield is a scheduling point); functor "
     "overlap monitor per instance address, per-instance update logs, WGL search against an atomic register", {"reads_between_switch_and_second_apply": 500}, chunks=16)
@@ -594,12 +600,22 @@ NATIVE = {
 }
 
 
+def _native_variants(prop, fam, recl):
+    # Stock ThreadSanitizer does not model the seq_cst fences hazard_eras / hazard_pointer rely on; in the guard-sequence scenarios
+    # (slots, algebra) and with hazard_eras it reports races that the fence-aware detector of xrt does not confirm on the same TSan
+    # build variant (DESIGN.md 0.5) - those combinations run under ASan+UBSan only.
+    vs = ("tsan",) if prop == "C03" else ("asan", "tsan")
+    if fam in ("slots", "algebra") or recl in (1, 2, 8, 9):
+        vs = tuple(v for v in vs if v != "tsan")
+    return vs
+
+
 def _native_targets(prop):
     out = []
     for fam, recls, _pat in NATIVE.get(prop, []):
-        names = [fam] if recls is None else ["%s.R%d" % (fam, r) for r in recls]
-        for n in names:
-            for v in (("tsan",) if prop == "C03" else ("asan", "tsan")):
+        for r in ([None] if recls is None else recls):
+            n = fam if r is None else "%s.R%d" % (fam, r)
+            for v in _native_variants(prop, fam, r):
                 out.append((n, v))
     return out
 
@@ -612,9 +628,9 @@ def native_jobs(prop, tier, seed, list_configs):
     jobs = []
     execs = 300 if tier == "quick" else 4000
     for fam, recls, pat in NATIVE.get(prop, []):
-        names = [fam] if recls is None else ["%s.R%d" % (fam, r) for r in recls]
-        for n in names:
-            for v in (("tsan",) if prop == "C03" else ("asan", "tsan")):
+        for r in ([None] if recls is None else recls):
+            n = fam if r is None else "%s.R%d" % (fam, r)
+            for v in _native_variants(prop, fam, r):
                 cfgs = cfgs_matching(list_configs, n, v, pat)
                 if not cfgs:
                     continue
